@@ -165,13 +165,28 @@ def parseFixture (s : String) : Option (List (Bytes × Bytes)) :=
 
 inductive Inj | none | failAt (k : Nat) | packGone (j : Nat) | dockerGone (j : Nat)
 
-def parseInj (s : String) : Option Inj :=
+/-- `z:<k>[:<exit status>|:sig]`: the model does not look at the status — any unsuccessful exit is `nonzero` -/
+def parseInjBase (s : String) : Option Inj :=
   if s = "-" then some .none
   else match s.splitOn ":" with
     | ["z", k] => k.toNat?.bind (fun k => if k = 0 then Option.none else some (.failAt k))
+    | ["z", k, st] =>
+      if st == "sig" || (match st.toNat? with | some n => decide (0 < n ∧ n < 256) | none => false) then
+        k.toNat?.bind (fun k => if k = 0 then Option.none else some (.failAt k))
+      else Option.none
     | ["nfp", j] => j.toNat?.bind (fun j => if j = 0 then Option.none else some (.packGone j))
     | ["nfd", j] => j.toNat?.bind (fun j => if j = 0 then Option.none else some (.dockerGone j))
     | _ => Option.none
+
+/-- `<injection>[@<flavour>]`; the flavour (0..3) selects what the stand-in tools print. Only flavour 3 matters to the
+model: `docker port` then prints two lines, which `address_for_port` cannot parse — it panics after the command -/
+def parseInj (s : String) : Option (Inj × Nat) :=
+  match s.splitOn "@" with
+  | [b] => (parseInjBase b).map (fun i => (i, 0))
+  | [b, f] => (match parseInjBase b, f.toNat? with
+    | some i, some f => if f ≤ 3 then some (i, f) else Option.none
+    | _, _ => Option.none)
+  | _ => Option.none
 
 /-- the stand-ins: the k-th *logged* command exits non-zero; or a tool disappears before its j-th invocation -/
 def oracleOf : Inj → Oracle
@@ -179,6 +194,14 @@ def oracleOf : Inj → Oracle
   | .failAt k => fun i _ _ => if i + 1 = k then some .nonzero else Option.none
   | .packGone j => fun _ c n => if c.prog = .pack ∧ n + 1 ≥ j then some .notFound else Option.none
   | .dockerGone j => fun _ c n => if c.prog = .docker ∧ n + 1 ≥ j then some .notFound else Option.none
+
+/-- with an unparsable `docker port` output every look-up of an exposed port is "the command, then a panic" -/
+def unparsablePort : Act → Act
+  | .startContainer cfg cas =>
+    .startContainer cfg (cas.flatMap (fun ca => match ca with
+      | .port p => if cfg.exposedPorts.contains p then [.port p, .panic] else [.port p]
+      | x => [x]))
+  | a => a
 
 structure Case where
   fixture : List (Bytes × Bytes)
@@ -189,8 +212,9 @@ def parseCase (fields : List String) : Option Case :=
   match fields with
   | [fx, bc, cc, tree, inj] =>
     match parseFixture fx, allSome ((lst bc "|").map parseBCfg), allSome ((lst cc "|").map parseCCfg), parseInj inj with
-    | some fx, some bcfgs, some ccfgs, some inj =>
-      (parseTree bcfgs ccfgs tree).map (fun ch => ⟨fx, ch, inj⟩)
+    | some fx, some bcfgs, some ccfgs, some (inj, flavour) =>
+      (parseTree bcfgs ccfgs tree).map (fun ch =>
+        ⟨fx, if flavour = 3 then ch.map (fun (b, acts) => (b, acts.map unparsablePort)) else ch, inj⟩)
     | _, _, _, _ => none
   | _ => none
 
